@@ -115,3 +115,43 @@ Proof.
     destruct (N.eqb_spec (inh nd) 0%N); [contradiction|reflexivity].
 Qed.
 Print Assumptions C20_source_deduped_reachable.
+
+(* ---- the most-linked request itself, translated (GenTraphM.v: Traph.get_webentity_most_linked_pages, with heapq as the modelled
+   primitive).  For EVERY history, every prefix list, bound and depth limit: the translated request returns exactly the model's
+   answer list (pages and reported degrees, in the same order), changes no byte, and raises exactly when the model refuses.
+   C20_most_linked (length, membership, order, maximality against the specification) is therefore a statement about it. *)
+From Traph Require GenTraphM GenTraphMFacts GenTrieFacts TraceDefs.
+Import GenTraphM GenTrieFacts.
+Theorem C20_source_most_linked : forall d rs h, wf_rules rs -> Forall wf_op h ->
+  let s := run d rs h in
+  forall sg sgl w ps k maxd,
+    trep (TraceDefs.files_of s) sg -> lrep (stubs s) sgl -> fits (nb s * bsz) -> fits (saddr (length (stubs s))) -> Forall wf_lru ps ->
+    match most_linked ps k maxd s with
+    | ROk l => exists sg', py_traph_get_webentity_most_linked_pages sg sgl w ps k maxd = Some (sg', l) /\ pm_array sg' = pm_array sg
+    | _ => py_traph_get_webentity_most_linked_pages sg sgl w ps k maxd = None
+    end.
+Proof.
+  intros d rs h H1 H2 s sg sgl w ps k maxd Hrep Hl Hf1 Hf2 Hps.
+  pose proof (GenTraphMFacts.py_traph_most_linked_spec d rs h H1 H2 sg sgl w ps k maxd Hrep Hl Hf1 Hf2 Hps) as H.
+  cbv zeta in H. fold s in H.
+  destruct (most_linked ps k maxd s) as [| |l]; [exact H|exact H|].
+  destruct H as (sg' & E & _ & Harr). exists sg'. split; assumption.
+Qed.
+
+(* the known finding F7 read off the TRANSLATED code: for every history, a page of the webentity with no in-link at all that the
+   request lists is listed with indegree 1 (and it is listed when the bound does not cut) *)
+Theorem C20_source_F7 : forall d rs h, wf_rules rs -> Forall wf_op h ->
+  let s := run d rs h in
+  forall sg sgl w ps k maxd cands,
+    trep (TraceDefs.files_of s) sg -> lrep (stubs s) sgl -> fits (nb s * bsz) -> fits (saddr (length (stubs s))) -> Forall wf_lru ps ->
+    we_page_nodes maxd ps s = ROk cands ->
+    exists sg' ans, py_traph_get_webentity_most_linked_pages sg sgl w ps k maxd = Some (sg', ans) /\
+      (forall lru dg, In (lru, dg) ans -> (forall nd, In (lru, nd) cands -> inh nd = 0) -> dg = 1) /\
+      ((length cands <= N.to_nat k)%nat -> forall lru nd, In (lru, nd) cands -> inh nd = 0 -> In (lru, 1) ans).
+Proof.
+  intros d rs h H1 H2 s sg sgl w ps k maxd cands Hrep Hl Hf1 Hf2 Hps Hc.
+  destruct (GenTraphMFacts.F7_from_source d rs h H1 H2 sg sgl w ps k maxd cands Hrep Hl Hf1 Hf2 Hps Hc) as (sg' & ans & E & _ & A & B).
+  exists sg', ans. split; [exact E|]. split; assumption.
+Qed.
+Print Assumptions C20_source_most_linked.
+Print Assumptions C20_source_F7.
